@@ -32,3 +32,22 @@ func IDs() []string {
 	sort.Strings(out)
 	return out
 }
+
+// shared returns the rule body of another property's obligation, so that a property that depends on the same
+// structural condition can claim it under its own id (reports are keyed by the claiming obligation).
+func shared(obID string) func(*kit.Ctx) {
+	return func(c *kit.Ctx) {
+		p := registry[obID[:3]]
+		if p == nil {
+			c.Undecided("shared:"+obID, 0, "shared rule %s is not registered", obID)
+			return
+		}
+		for _, ob := range p.Obs() {
+			if ob.ID == obID {
+				ob.Check(c)
+				return
+			}
+		}
+		c.Undecided("shared:"+obID, 0, "shared rule %s is not registered", obID)
+	}
+}
